@@ -117,3 +117,26 @@ def classify(case, ir, mr):
         if a != b:
             return G.op_family(ops[i])
     return 'unclassified'
+
+
+CLAIM = {
+    'text': 'Coq theorems (Properties_C11.v): for every capacity, every well-formed object and every argument inside the '
+            'documented domain, each of the 40 modelled modifying entry points (constructors, assign, insert / erase / '
+            'push_back / pop_back / append / sprintf / replace families incl. iterator overloads, swap, clear) leaves exactly '
+            'the text std::string has after the same operation, cut at L (C11_mutators_refine); the 9 compare overloads, '
+            'starts_with, substr, copy, at/front/back/length/empty/str, == and != and the traversal in both directions return '
+            'what std::string returns (C11_observers_refine_partial, C11_iteration_forward/reverse); == and != are '
+            'complementary for all operands. The std::string specification '
+            '(FsStd.v) is itself run against the real libstdc++ std::string in the harness. ends_with, contains, the 30 find '
+            'overloads and single iterator steps (--, +=, -=) are covered by the correspondence check only (model = code and '
+            'code = std::string on every in-domain case of the exhaustive small scopes and the random histories). Seven '
+            'deviations of the pinned tree were found and repaired (fixes/C11-1..3, C10-2, C10-4, C10-5, C10-7).',
+    'note': 'trusted: Coq kernel, extraction, the hand-written model and specification (both validated by correspondence on '
+            'every run), the harness, libstdc++ as reference. Deliberately outside the domain (decided in DESIGN.md section 8): '
+            'at(length) returning the terminator, empty needles for find/contains, backward searches with an explicit start '
+            'position >= length, insert/erase at end() through iterators (documented as invalid by the class). Not modelled: '
+            'see the note of C10.',
+    'technique': 'Coq refinement proof (abstraction to the text, std::string operations as list functions, pointwise list '
+                 'reasoning); differential correspondence check against FixedString<L> and std::string',
+    'design_ref': 'DESIGN.md section 5, C10/C11; section 8 rows 3, 6-10',
+}
